@@ -13,7 +13,8 @@ On break: harness `oracle` evaluates the property directly on the real code with
 """
 import os
 
-THEOREMS = ["IstioModel.C10.Theorems"]
+THEOREMS = ["IstioModel.C10.Theorems", "IstioModel.C10.Chains", "IstioModel.C10.GenTie", "IstioModel.C10.AmbientTheorems"]
+GENERATED = os.path.join(os.path.dirname(os.path.dirname(os.path.abspath(__file__))), "lean", "IstioModel", "Generated", "C10Chains.lean")
 STREAMS = ("compose", "ambient")
 
 
@@ -90,10 +91,36 @@ def run(ctx):
     ]
     ctx.trusted.append("pilot/pkg/model/zz_verif_c10.go, pilot/pkg/xds/endpoints/zz_verif_c10.go, pilot/pkg/networking/core/"
                        "zz_verif_c10.go, pilot/pkg/serviceregistry/ambient/zz_verif_c10.go (verif-tagged accessors)")
-    ctx.lean_prove(THEOREMS)
-    if not ctx.build_drv():
-        return
+    # T-gen first: the real filter-chain table of this tree becomes a Lean file (stale file deleted first)
+    if os.path.exists(GENERATED):
+        os.remove(GENERATED)
     if not ctx.go_build():
+        return
+    os.makedirs(os.path.dirname(GENERATED), exist_ok=True)
+    rc, log = ctx.harness("table", "chains", GENERATED)
+    if rc != 0 or not os.path.exists(GENERATED):
+        ctx.tie_broken("harness-table:chains", "the harness could not evaluate getFilterChainMatchOptions over its domain:\n" + log)
+        return
+    ctx.exhaustive = {"domain": "MutualTLSMode (4) x ListenerProtocol (4) = 16 rows of the inbound filter-chain table",
+                      "rows": 16, "tie": "IstioModel.C10.chains_model_eq_impl (decide)"}
+    proved = ctx.lean_prove(THEOREMS)
+    # the filter-chain clauses evaluated directly on the real table, independent of the model
+    cv = os.path.join(ctx.work, "chains.verdict")
+    rc, log = ctx.harness("oracle", "chains", os.devnull, cv)
+    if rc != 0 or not os.path.exists(cv):
+        ctx.tie_broken("oracle-run:chains", log)
+    else:
+        rows = ctx.read_lines(cv)
+        ctx.count("oracle.chains.rows", len(rows))
+        for v in rows:
+            ctx.note_case("chains " + v, True)
+            if v.startswith("FAIL"):
+                f = v.split()
+                ctx.violation("chains:%s:%s" % (f[1], f[2]),
+                              "the generated inbound filter chains do not enforce the mode (%s)" % " ".join(f[2:]),
+                              {"stream": "chains", "row": " ".join(f[3:]), "oracle_verdict": v,
+                               "generated_table": open(GENERATED).read()}, True)
+    if not ctx.build_drv():
         return
     n = ctx.n(20000, 400000)
     for stream in STREAMS:
